@@ -13,9 +13,11 @@ Candidate kinds
   echo    : files -> `ironplcc echo <file>`;   expect_contains / expect_not_contains / expect "reject"
   tokens  : file  -> `ironplcc tokenize`;      expect list of [type, line, col] for selected token texts
   lsp     : scripted JSON-RPC session -> expectations on published diagnostics / semantic tokens
+  encodings: one text in several encodings -> same verdict, codes, positions, token positions (C14)
   cli     : list of invocations -> exit status, the line OK and coded diagnostics must agree (C13), expected status, same_as
 """
 import glob
+import hashlib
 import json
 import os
 import re
@@ -199,6 +201,39 @@ def run_candidate(c):
                     if (o["exit"] == 0) != (rc == 0) or o["codes"] != runs[-1]["codes"]:
                         bad.append("`%s`: verdict %s %s differs from `%s`: %s %s" % (what, rc, runs[-1]["codes"], " ".join(o["args"]), o["exit"], o["codes"]))
             obs = {"runs": runs}
+        elif kind == "encodings":
+            # C14: the same text stored in several encodings -> the same verdict, codes and positions (check and tokenize)
+            text = c["text"]
+            if "repeat" in c:   # {"marker": "@@", "unit": "é", "count": 900}: a long run of multi-byte characters
+                text = text.replace(c["repeat"]["marker"], c["repeat"]["unit"] * c["repeat"]["count"])
+            encs = {"utf-8": lambda t: t.encode("utf-8"), "utf-8-bom": lambda t: b"\xef\xbb\xbf" + t.encode("utf-8"),
+                    "utf-16le-bom": lambda t: b"\xff\xfe" + t.encode("utf-16-le"), "utf-16be-bom": lambda t: b"\xfe\xff" + t.encode("utf-16-be"),
+                    "cp1252": lambda t: t.encode("cp1252")}
+            seen = {}
+            for en in c.get("encodings", list(encs)):
+                sub = os.path.join(d, en.replace("-", "_"))
+                os.makedirs(sub, exist_ok=True)
+                open(os.path.join(sub, "f.st"), "wb").write(encs[en](text))
+                res = {}
+                for cmd in ("check", "tokenize"):
+                    rc, so, se = run(binp, [cmd, "f.st"], sub)
+                    plain = ANSI.sub("", so + se)
+                    if rc not in (0, 1):
+                        bad.append("%s of the %s file: crash/abnormal exit %s" % (cmd, en, rc))
+                    res[cmd] = {"exit": rc, "codes": codes_of(plain), "positions": re.findall(r"f\.st:(\d+):(\d+)", plain)[:40],
+                                "token_positions": hashlib.sha256(" ".join(re.findall(r"Ln \d+,Col \d+", plain)).encode()).hexdigest()[:12] if cmd == "tokenize" else None,
+                                "n_tokens": len(re.findall(r"Ln \d+,Col \d+", plain)) if cmd == "tokenize" else None}
+                seen[en] = res
+            ref_en = list(seen)[0]
+            for en in seen:
+                if seen[en] != seen[ref_en]:
+                    bad.append("the %s file gives %s, the %s file gives %s" % (en, seen[en], ref_en, seen[ref_en]))
+            if "expect_exit" in c and (seen[ref_en]["check"]["exit"] == 0) != (c["expect_exit"] == 0):
+                bad.append("check exit %s, expected %s" % (seen[ref_en]["check"]["exit"], c["expect_exit"]))
+            for pos in c.get("expect_positions", []):
+                if list(map(str, pos)) not in [list(x) for x in seen[ref_en]["check"]["positions"]]:
+                    bad.append("expected a diagnostic at %s, got %s" % (pos, seen[ref_en]["check"]["positions"]))
+            obs = {"per_encoding": seen}
         elif kind == "check":
             rc, so, se = run(binp, ["check"] + names, d)
             cs = codes_of(so + se)
